@@ -6,7 +6,7 @@
    rearrangements (Permutation (sh l) l), so every statement holds for every iteration order. *)
 From Coq Require Import Permutation.
 From Verif Require Import Lib.Bytes StateRes.Event StateRes.Kahn StateRes.V2 StateRes.V1 StateRes.Entry
-     StateRes.SortProofs StateRes.KahnProofs StateRes.OrderProofs StateRes.ResultProofs StateRes.CmpProofs StateRes.KahnSetProofs StateRes.OrderSetProofs StateRes.V2Spec StateRes.SplitProofs StateRes.AgreedProofs StateRes.SubsetProofs.
+     StateRes.SortProofs StateRes.KahnProofs StateRes.OrderProofs StateRes.ResultProofs StateRes.CmpProofs StateRes.KahnSetProofs StateRes.OrderSetProofs StateRes.V2Spec StateRes.SplitProofs StateRes.AgreedProofs StateRes.SubsetProofs StateRes.SubsetOldProofs StateRes.V1Proofs.
 
 (* slices.SortStableFunc by a total order whose ties are identities: the result depends only on
    the set of elements, not on the order they were in (map iteration order, input order) *)
@@ -150,6 +150,28 @@ Section AgainstInputs.
   Qed.
 End AgainstInputs.
 
+
+(* the deprecated v2 driver also returns only events it was given *)
+Theorem result_subset_of_inputs_deprecated allowed rejected shE shP priv cl ud conflicted unconflicted auth_events x :
+  (forall l, Permutation (shE l) l) -> (forall l, Permutation (shP l) l) ->
+  In x (result_events (resolve_v2_old allowed rejected shE shP priv cl ud conflicted unconflicted auth_events)) ->
+  In x conflicted \/ In x unconflicted \/ In x auth_events.
+Proof. intros. eapply result_subset_of_inputs_v2_old; eauto. Qed.
+
+
+(* v1 through the current entry point: only events of the state sets are returned *)
+Theorem result_subset_of_inputs_v1 allowed rejected shE shP shG ver sets auth_events res log x :
+  (forall l, Permutation (shG l) l) ->
+  algo_of_version ver = Some AlgoV1 ->
+  resolve_conflicts_new allowed rejected shE shP shG ver sets auth_events = Some (res, log) ->
+  In x res -> In x (concat sets).
+Proof.
+  intros HG Hv. unfold resolve_conflicts_new. rewrite Hv. intro H. inversion H; subst; clear H. intro Hx.
+  apply in_app_or in Hx as [Hx|Hx].
+  - apply v1_picks_conflicted_events in Hx. apply (split_conflicted_sub allowed shG HG true). left. exact Hx.
+  - apply (split_conflicted_sub allowed shG HG true). right. exact Hx.
+Qed.
+
 (* the tie-break keys are total orders whose ties are the same event ID, so the sorts (and the
    pops of the Kahn queue) do not depend on the order the items arrive in *)
 Theorem power_sort_canonical (l l' : list pwrap) :
@@ -247,3 +269,5 @@ Print Assumptions mainline_order_order_independent.
 Print Assumptions result_subset_of_inputs.
 Print Assumptions agreed_keys_kept.
 Print Assumptions equal_sets_fixed_point_partial.
+Print Assumptions result_subset_of_inputs_deprecated.
+Print Assumptions result_subset_of_inputs_v1.
